@@ -134,6 +134,17 @@ def run(ctx):
                NativePrims(ctx.scratch, "cpp", {}, "cpp")]
     if not ctx.quick:
         natives += [NativePrims(ctx.scratch, "c", {}, "c_any_asan", sanitize=True), NativePrims(ctx.scratch, "cpp", {"target_endianness": "little"}, "cpp_little_asan", sanitize=True)]
+    # the same C library with a pointer watch in a scratch copy of the generated header (bounded fetches only)
+    watch = NativePrims(ctx.scratch, "c", {}, "c_any_watch", watch=True)
+    if watch.watching:
+        natives.append(watch)
+    else:
+        ctx.not_exercised("pointer watch: the statement that forms the source pointer in nunavutCopyBits was not found in the generated header "
+                          "(prim.ptr_inside is decided by the model BitPrims!PtrInside only)")
+    neg = tlc.run_tlc(tlc.SPECS / "BitPrims.tla", tlc.SPECS / "BitPrims_neg_ptr.cfg", ctx.scratch)
+    if neg.violated != "PtrInside":
+        raise MachineryFailure("negative control BitPrims_neg_ptr (fetch that always calls the copy) was not refuted by PtrInside")
+    ctx.cov["bitprims_negative_control"] = "GuardEmpty=FALSE refuted by PtrInside"
     cases, f32s = gen_cases(ctx, rng)
     records = []
     stim = {}
@@ -159,6 +170,8 @@ def run(ctx):
     packed = {}
     for nt, res in results:
         for i, (rec, line) in enumerate(cases):
+            if nt.name.endswith("_watch") and rec["ev"] not in ("getbits", "getu", "geti", "getf"):
+                continue
             r = res.get(i)
             if r is None or "crash" in r:
                 ctx.violation("C14|%s|prim.noret|%s" % (nt.name.split("_")[0], rec["ev"]), "primitive call did not return on %s: %s" % (nt.name, (r or {}).get("crash", "")[:300]),
@@ -173,6 +186,8 @@ def run(ctx):
                 rec2["out"] = list(bytes.fromhex(r["out"]))
             elif ev in ("getu", "geti", "getf"):
                 rec2["val"] = list(bytes.fromhex(r["val"]))
+            if "psrc" in r:
+                rec2["psrc"] = r["psrc"]
             elif ev == "unpack":
                 rec2["f"] = list(bytes.fromhex(r["f"]))
                 add({"ev": "rt16", "h": rec["h"], "h2": list(bytes.fromhex(r["h2"]))}, nt.name, line % i)
@@ -206,6 +221,10 @@ def run(ctx):
         info = stim[rid]
         if clause.startswith("harness"):
             raise MachineryFailure("bad record %r" % info)
+        if clause == "prim.ptr_inside":  # undefined behaviour is C04's clause: `./check C04` runs pointer_watch() and decides it
+            ctx.cov.setdefault("clauses_owned_by_other_checks", {}).setdefault("prim.ptr_inside (C04)", 0)
+            ctx.cov["clauses_owned_by_other_checks"]["prim.ptr_inside (C04)"] += 1
+            continue
         rec = next(r for r in records if r["id"] == rid)
         if info.get("pyop"):
             rec = dict(rec, py=info["pyop"])
@@ -228,6 +247,59 @@ def run(ctx):
                        % (len([c for c in cases if c[0]["ev"] == "unpack"]), len(f32s)))
     ctx.cov["exhaustive"] = False
     ctx.assumptions += ["TLC + BitPrimsP/Ieee specs are the oracle", "the property's sweep over all 2^32 float32 values is replaced by the structured boundary set + random (DESIGN §7)"]
+
+
+def pointer_watch(ctx, prop):
+    """C04: the bounded fetches of the C support library never form a pointer beyond one-past-the-end of the declared buffer.  Model:
+    BitPrims!PtrInside (negative control: the fetch that always calls the copy).  Code: a scratch copy of the generated header reports the source
+    pointer of the aligned copy branch where it is formed; every fetch of the C14 grid is one record judged by BitPrimsTrace (prim.ptr_inside)."""
+    neg = tlc.run_tlc(tlc.SPECS / "BitPrims.tla", tlc.SPECS / "BitPrims_neg_ptr.cfg", ctx.scratch)
+    if neg.violated != "PtrInside":
+        raise MachineryFailure("negative control BitPrims_neg_ptr was not refuted by PtrInside")
+    tlc.check_model(ctx, "BitPrims", "BitPrims", constants="Level=1 GuardEmpty=TRUE (PtrInside)", timeout=3000)
+    watch = NativePrims(ctx.scratch, "c", {}, "c_any_watch", watch=True)
+    if not watch.watching:
+        ctx.not_exercised("pointer watch: the statement that forms the source pointer in nunavutCopyBits was not found in the generated header")
+        return
+    cases, _ = gen_cases(ctx, ctx.rng)
+    picked = [(i, rec, line) for i, (rec, line) in enumerate(cases) if rec["ev"] in ("getbits", "getu", "geti", "getf")]
+    res = watch.run([(i, line % i) for i, _, line in picked])
+    records, cmd = [], {}
+    for i, rec, line in picked:
+        r = res.get(i)
+        if r is None or "crash" in r or "psrc" not in r:
+            continue
+        rec2 = dict(rec, id=i, psrc=r["psrc"])
+        if rec["ev"] == "getbits":
+            rec2["out"] = list(bytes.fromhex(r["out"]))
+        else:
+            rec2["val"] = list(bytes.fromhex(r["val"]))
+        records.append(rec2)
+        cmd[i] = line % i
+        ctx.count()
+        ctx.distinct("ptrwatch|%s|%s|%s|%s" % (rec["ev"], rec["off"], rec.get("len"), rec["size"]), nontrivial=rec["off"] // 8 >= rec["size"])
+    rej = tlc.validate_traces(ctx, "BitPrimsTrace", records, batch=4000)
+    for rid, clause in sorted(rej.items()):
+        if clause != "prim.ptr_inside":
+            continue  # value clauses are C14's
+        rec = next(r for r in records if r["id"] == rid)
+        ctx.violation("%s|c|prim.ptr_inside|%s" % (prop, rec["ev"]),
+                      "a bounded fetch (%s, declared size %d bytes, offset %d bits, %s bits) formed a source pointer %d bytes from the start of the buffer"
+                      % (rec["ev"], rec["size"], rec["off"], rec.get("len", rec.get("W")), rec["psrc"]),
+                      {"kind": "primwatch", "cmd": cmd[rid], "ev": rec["ev"], "record": rec})
+    ctx.cov["pointer_watch_fetches"] = len(records)
+
+
+def replay_pointer_watch(ctx, case, prop):
+    watch = NativePrims(ctx.scratch, "c", {}, "c_any_watch", watch=True)
+    if not watch.watching:
+        raise MachineryFailure("pointer watch cannot be installed on this tree")
+    r = next(iter(watch.run([(1, case["cmd"])]).values()), {})  # the command line carries its own id
+    if "psrc" not in r:
+        raise MachineryFailure("the fetch did not report")
+    rec = dict(case["record"], id=1, psrc=r["psrc"])
+    if tlc.validate_traces(ctx, "BitPrimsTrace", [rec]).get(1) == "prim.ptr_inside":
+        ctx.violation("%s|c|prim.ptr_inside|%s" % (prop, case["ev"]), "source pointer formed %d bytes from the start of a %d-byte buffer" % (r["psrc"], rec["size"]), case)
 
 
 def py_stimuli(rng, quick):
